@@ -453,7 +453,10 @@ func cplxOps128(op, form string) (string, bool) {
 			return runCmp(c, form, true, vals, 1, 0), true
 		}
 	}
-	uns := []unCase[complex128]{{"neg", tensor.Neg, gNeg[complex128], 0}, {"square", tensor.Square, gSquare[complex128], 0}, {"cube", tensor.Cube, gCube[complex128], 0}}
+	uns := []unCase[complex128]{{"neg", tensor.Neg, gNeg[complex128], 0}, {"square", tensor.Square, gSquare[complex128], 0}, {"cube", tensor.Cube, gCube[complex128], 0},
+		{"inv", tensor.Inv, func(a complex128) complex128 { return 1 / a }, 0},
+		{"exp", tensor.Exp, cmplx.Exp, 1e-12}, {"tanh", tensor.Tanh, cmplx.Tanh, 1e-12}, {"log", tensor.Log, cmplx.Log, 1e-12},
+		{"log10", tensor.Log10, cmplx.Log10, 1e-12}, {"sqrt", tensor.Sqrt, cmplx.Sqrt, 1e-12}}
 	for _, c := range uns {
 		if c.name == op {
 			return runUn(c, vals), true
@@ -483,7 +486,13 @@ func cplxOps64(op, form string) (string, bool) {
 			return runCmp(c, form, true, vals, 1, 0), true
 		}
 	}
-	uns := []unCase[complex64]{{"neg", tensor.Neg, gNeg[complex64], 0}, {"square", tensor.Square, gSquare[complex64], 0}, {"cube", tensor.Cube, gCube[complex64], 0}}
+	c64 := func(f func(complex128) complex128) func(complex64) complex64 {
+		return func(a complex64) complex64 { return complex64(f(complex128(a))) }
+	}
+	uns := []unCase[complex64]{{"neg", tensor.Neg, gNeg[complex64], 0}, {"square", tensor.Square, gSquare[complex64], 0}, {"cube", tensor.Cube, gCube[complex64], 0},
+		{"inv", tensor.Inv, func(a complex64) complex64 { return 1 / a }, 0},
+		{"exp", tensor.Exp, c64(cmplx.Exp), 1e-5}, {"tanh", tensor.Tanh, c64(cmplx.Tanh), 1e-5}, {"log", tensor.Log, c64(cmplx.Log), 1e-5},
+		{"log10", tensor.Log10, c64(cmplx.Log10), 1e-5}, {"sqrt", tensor.Sqrt, c64(cmplx.Sqrt), 1e-5}}
 	for _, c := range uns {
 		if c.name == op {
 			return runUn(c, vals), true
